@@ -307,9 +307,18 @@ Definition new_promise (c : create_promise_cmd) (sort : Z) : promise :=
   mkP (cp_id c) sort 1 (cp_ph c) (cp_pd c) [] EmptyString (cp_timeout c) (cp_ikey c) None
       (cp_tags c) (cp_created c) None.
 
+(* ON CONFLICT(id) DO NOTHING: the AUTOINCREMENT value is consumed even when the row is not inserted
+   (observed on SQLite 3.40: the rowid is allocated before the UNIQUE check on id) *)
+Definition bump_p (d : db) : db :=
+  mkDb (promises d) (callbacks d) (schedules d) (locks d) (tasks d) (next_p d + 1) (next_s d) (next_t d).
+Definition bump_s (d : db) : db :=
+  mkDb (promises d) (callbacks d) (schedules d) (locks d) (tasks d) (next_p d) (next_s d + 1) (next_t d).
+Definition bump_t (d : db) : db :=
+  mkDb (promises d) (callbacks d) (schedules d) (locks d) (tasks d) (next_p d) (next_s d) (next_t d + 1).
+
 Definition ex_create_promise (d : db) (c : create_promise_cmd) : db * Z :=
   match find_promise (cp_id c) d with
-  | Some _ => (d, 0)
+  | Some _ => (bump_p d, 0)
   | None =>
     (mkDb (promises d ++ [new_promise c (next_p d)]) (callbacks d) (schedules d) (locks d) (tasks d)
           (next_p d + 1) (next_s d) (next_t d), 1)
@@ -393,7 +402,7 @@ Definition new_schedule (c : create_schedule_cmd) (sort : Z) : schedule :=
 
 Definition ex_create_schedule (d : db) (c : create_schedule_cmd) : db * Z :=
   match find_schedule (cs_id c) d with
-  | Some _ => (d, 0)
+  | Some _ => (bump_s d, 0)
   | None =>
     (mkDb (promises d) (callbacks d) (schedules d ++ [new_schedule c (next_s d)]) (locks d) (tasks d)
           (next_p d) (next_s d + 1) (next_t d), 1)
@@ -495,7 +504,7 @@ Definition new_task (c : create_task_cmd) (sort : Z) : task :=
 
 Definition ex_create_task (d : db) (c : create_task_cmd) : db * Z :=
   match find_task (ct_id c) d with
-  | Some _ => (d, 0)
+  | Some _ => (bump_t d, 0)
   | None =>
     (mkDb (promises d) (callbacks d) (schedules d) (locks d) (tasks d ++ [new_task c (next_t d)])
           (next_p d) (next_s d) (next_t d + 1), 1)
@@ -557,7 +566,7 @@ Definition ex_heartbeat_tasks (d : db) (pid : string) (time : Z) : db * Z :=
 
 Definition ex_create_promise_and_task (d : db) (pc : create_promise_cmd) (tc : create_task_cmd) : db * (Z * Z) :=
   let '(d1, pr) := ex_create_promise d pc in
-  if pr =? 0 then (d, (0, 0))
+  if pr =? 0 then (d1, (0, 0))
   else let '(d2, tr) := ex_create_task d1 tc in (d2, (pr, tr)).
 
 (* locks *)
